@@ -100,6 +100,7 @@ class C12(HistoryProperty):
 
     def gen_case(self, rng, tier):
         cfg = gen.swarm_cfg(rng, off=("shape_change",), on=("dsclass", "fapp"))
+        cfg["odd_constants"] = rng.random() < 0.4
         cfg["empty_switches"] = rng.random() < 0.5  # a switch without any branch: every value is unmatched
         cfg["env_refs"] = rng.random() < 0.4  # Template texts referring to the process environment
         cfg["posonly_params"] = rng.random() < 0.4  # dataset functions with positional-only parameters
